@@ -117,6 +117,7 @@ type Opts struct {
 	GatewayV1         bool   `json:"gateway_v1,omitempty"`
 	TCPConfigMap      string `json:"tcp_configmap,omitempty"` // --tcp-services-configmap "ns/name"
 	TCPRouteA2        bool   `json:"tcproute_a2,omitempty"`
+	EndpointSlices    bool   `json:"endpoint_slices,omitempty"` // --enable-endpointslices-api
 }
 
 // Run describes how one fresh pipeline is fed.
@@ -203,7 +204,8 @@ type Result struct {
 func Exec(r Run, u sem.Universe, keep bool) (*Result, error) {
 	popt := pipeline.Options{Dir: r.Dir, WatchWithoutClass: r.Opts.WatchWithoutClass,
 		DefaultService: r.Opts.DefaultService, BackendShards: r.Opts.BackendShards, NoAutoMeta: true,
-		HasGatewayV1: r.Opts.GatewayV1, TCPConfigMapName: r.Opts.TCPConfigMap, HasTCPRouteA2: r.Opts.TCPRouteA2}
+		HasGatewayV1: r.Opts.GatewayV1, TCPConfigMapName: r.Opts.TCPConfigMap, HasTCPRouteA2: r.Opts.TCPRouteA2,
+		EnableEndpointSlices: r.Opts.EndpointSlices}
 	var st *store
 	var sc *ShuffleClient
 	if r.ShuffleLists {
@@ -218,6 +220,13 @@ func Exec(r Run, u sem.Universe, keep bool) (*Result, error) {
 	p, err := pipeline.NewE(popt)
 	if err != nil {
 		return nil, err
+	}
+	if r.Opts.EndpointSlices {
+		sc := &sliceCache{Cache: p.ConvOpt.Cache, cli: p.Client}
+		if r.Seed != 0 {
+			sc.rng = rand.New(rand.NewSource(r.Seed * 31))
+		}
+		p.ConvOpt.Cache = sc
 	}
 	res := &Result{}
 	apply := func(batch []pipeline.Change) error {
